@@ -6,7 +6,9 @@ import sys, os, subprocess, json, shutil, re, time
 prop, k = sys.argv[1], sys.argv[2]
 check = sys.argv[3] if len(sys.argv) > 3 else prop
 tier = sys.argv[4] if len(sys.argv) > 4 else "quick"
-src = f"/tmp/wt_out/{prop}"
+import os as _os
+src = _os.environ.get("MUT_SRC", "/tmp/wt_out") + f"/{prop}"
+suffix = _os.environ.get("MUT_SUFFIX", "")
 patch, demo, notes = f"{src}/patch{k}.diff", f"{src}/demo{k}.py", f"{src}/notes{k}.md"
 out = subprocess.run(["/verif/tools/mutant.sh", patch, demo, check, tier], capture_output=True, text=True).stdout
 print(out)
@@ -20,7 +22,7 @@ ok = (m_clean and m_clean.group(1) == "0" and m_tests and m_tests.group(1) == "1
       and m_demo and m_demo.group(1) != "0")
 if not ok:
     print("NOT CONFIRMED - not kept"); sys.exit(1)
-d = f"/verif/seeded/{prop}-{k}"
+d = f"/verif/seeded/{prop}-{k}{suffix}"
 os.makedirs(d, exist_ok=True)
 shutil.copy(patch, f"{d}/patch.diff"); shutil.copy(demo, f"{d}/demo.py")
 needs = ""
